@@ -8,6 +8,7 @@ mod c13;
 mod c14;
 mod c15;
 mod c17;
+mod c18;
 mod c19;
 
 use simk::runner::{harness_error, main_for, Check};
@@ -28,6 +29,7 @@ fn main() {
         "C14" => &c14::C14,
         "C15" => &c15::C15,
         "C17" => &c17::C17,
+        "C18" => &c18::C18,
         "C19" => &c19::C19,
         o => harness_error(&format!("no check for property {o}")),
     };
